@@ -304,7 +304,8 @@ class AudioIO(object):
     Updates internal status about open recording streams. Should be called
     only by the internal closing mechanism of children RecStream instances.
     """
-    self._recordings.remove(recst)
+    # By identity: RecStream instances are streams, "==" would be elementwise
+    self._recordings = [rec for rec in self._recordings if rec is not recst]
 
   def record(self, chunk_size = None,
                    dfmt = "f",
